@@ -238,6 +238,16 @@ def gen():
     b = func_body(raw0, r"Map<RawCell\*>\s+read_rawcells\s*\(")
     w("Definition read_rawcells_case_groups : list (list N) := %s." % fmt(
         switch_groups(b, r"switch\s*\(\s*buffer\[2\]\s*\)\s*\{", r"0x[0-9A-Fa-f]+|\d+|GdsiiRecord::\w+", lambda l: res_enum(l) if "::" in l else res_hex(l), "read_rawcells")))
+    # --- record switch of read_oas
+    orec = dict(enums["OasisRecord"])
+    def res_orec(lbl):
+        nm = lbl.split("::")[-1]
+        if nm not in orec:
+            raise GenError("unknown OasisRecord member " + nm)
+        return orec[nm]
+    b = func_body(lib0, r"Library\s+read_oas\s*\(")
+    w("Definition read_oas_case_groups : list (list N) := %s." % fmt(
+        switch_groups(b, r"switch\s*\(\s*record\s*\)\s*\{", r"OasisRecord::\w+", res_orec, "read_oas")))
     w("")
     # --- CTRAPEZOID table of read_oas
     lib = strip_comments(read("src/library.cpp"))
